@@ -25,6 +25,11 @@ func (*inRange) Exit(node *Node) {
 			if rng, ok := n.Right.(*BinaryNode); ok && rng.Operator == ".." {
 				if from, ok := rng.Left.(*IntegerNode); ok {
 					if to, ok := rng.Right.(*IntegerNode); ok {
+						// A range the run time refuses to build (see the
+						// constRange optimization) keeps failing there.
+						if size := to.Value - from.Value + 1; to.Value >= from.Value && (size <= 0 || size >= 1e6) {
+							return
+						}
 						Patch(node, &BinaryNode{
 							Operator: "and",
 							Left: &BinaryNode{
